@@ -388,6 +388,9 @@ type verifyOut struct {
 	Ops   int               `json:"ops"`
 	Idle  bool              `json:"idle"` // no commit between recovery and the Close/Open that follows
 	Died  bool              `json:"died"` // ... and no Close either: the recovered incarnation died idle
+	// ReaderDiff: a read-only transaction begun right after recovery re-read every key after the
+	// post-recovery commits; the first key whose answer changed (hex-free description), "" if none
+	ReaderDiff string `json:"reader_diff"`
 }
 
 // postStride: the recovery child commits to every postStride-th key (every second key, fewer for
@@ -450,6 +453,8 @@ func crashVerifyMain(args []string) int {
 	// (every second key only: the others must keep the value they had right after recovery)
 	out.Idle = mode == "idle" || mode == "idlecrash"
 	out.Died = mode == "idlecrash"
+	// a reader that lives across the first commits of the recovered incarnation
+	reader := db.Begin(false)
 	for i, k := range p.Keys {
 		if i%postStride(p) != 0 || out.Idle {
 			continue
@@ -459,6 +464,17 @@ func crashVerifyMain(args []string) int {
 			panic(fmt.Sprintf("post-recovery Update returned %v", err))
 		}
 	}
+	if !out.Idle {
+		for _, k := range p.Keys {
+			v, ok := reader.Get(k)
+			want, wok := out.State[k]
+			if ok != wok || (ok && string(v) != want) {
+				out.ReaderDiff = fmt.Sprintf("key %q read (%q, found=%v) right after recovery; a read-only transaction begun then reads (%q, found=%v) after the incarnation's first commits (to other keys or newer versions)", k, want, wok, v, ok)
+				break
+			}
+		}
+	}
+	reader.Discard()
 	if mode == "crashafter" || mode == "idlecrash" {
 		out.State = hexMap(out.State)
 		b, _ := json.Marshal(out)
@@ -624,6 +640,9 @@ func judgeRecovery(st ackState, v verifyOut, p crashProgram, atomic bool) []judg
 				out = append(out, judgement{"C04", "partial-transaction", fmt.Sprintf("the transaction of writer %d that was committing at the crash is applied partially: keys %q have its new values, keys %q still their old ones", w, ns, os)})
 			}
 		}
+	}
+	if v.ReaderDiff != "" {
+		out = append(out, judgement{"C03", "recovered-value-lost-for-open-reader", v.ReaderDiff + " [the snapshot of an open transaction changed: also C05]"})
 	}
 	for i, k := range p.Keys {
 		if i%postStride(p) == 0 && !v.Idle {
